@@ -38,7 +38,8 @@ SPECIAL = ['"', '\\', '\n', '\t', '\r', '\x0b', '\x08', '\x0c', '\x00', '\x01', 
 
 
 def byte_strings(min_size=0, max_size=8):
-    ch = st.one_of(st.sampled_from(SPECIAL), st.characters(min_codepoint=0x20, max_codepoint=0x7e), st.sampled_from(['a', 'b', '1']))
+    ch = st.one_of(st.sampled_from(SPECIAL), st.characters(min_codepoint=0x20, max_codepoint=0x7e), st.sampled_from(['a', 'b', '1']),
+                   st.characters(min_codepoint=0x00, max_codepoint=0x1f), st.characters(min_codepoint=0x7f, max_codepoint=0x2ff))
     return st.lists(ch, min_size=min_size, max_size=max_size).map("".join)
 
 
@@ -343,6 +344,20 @@ def shard_main(ctx):
         run_fuzzer(ctx, p["fuzz_seconds"], harness.derive_seed(ctx.seed, "C15fuzz", ctx.shard))
         return
     g = n - 4
+    # bounded exhaustive core: every code point 0 .. 0x2ff (i.e. every single byte 0x00-0x7f and all two-byte UTF-8 sequences up
+    # to U+02FF) as string value, array element and map key - alone and between two letters
+    k = 0
+    try:
+        for cp in range(0, 0x300):
+            k += 1
+            if k % g != ctx.shard:
+                continue
+            c = chr(cp)
+            for sv in (c, 'a' + c + 'b'):
+                check_tree(ctx, ('M', {'k': ('v', sv), sv: ('v', 'x'), 'l': ('A', [('v', sv), ('v', 'y')])}))
+    except Failure as f:
+        ctx.failures.append({"kind": f.kind, "detail": f.detail, "case": {"tree": repr(('M', {'k': ('v', sv)})), "wire_hex": wire(('M', {'k': ('v', sv)})).hex()}})
+        return
     ctx.run_hypothesis([containers], lambda t: check_tree(ctx, t), p["trees"] // g + 1, lambda t: {"tree": repr(t), "wire_hex": wire(t).hex()}, name="tree")
     ctx.run_hypothesis([events_s], lambda e: check_event(ctx, e), p["events"] // g + 1, lambda e: {"event": repr(e), "pickle": harness.pack(e)}, name="event")
     ctx.run_hypothesis([damage_s], lambda d: check_bytes(ctx, damaged(*d)), p["bytes"] // (2 * g) + 1,
